@@ -900,6 +900,17 @@ func (e *Engine) specFunc(y *ECall, env *evalEnv) (Val, bool) {
 			e.vc.declFun(fn, sorts, "BV")
 			return Val{S: app(fn, as...), T: bvT}, true
 		}
+	case "jsonok":
+		// jsonok("pkg.Type", data): json.Unmarshal of data into a value of that type succeeds
+		if l, ok := y.Args[0].(*ELit); ok && len(y.Args) == 2 {
+			if t := e.prog.lookupType(l.Val); t != nil {
+				okfn := "jsonok_" + mangle(typeKey(t))
+				e.declAddr()
+				e.vc.declFun(okfn, []string{"BV"}, "Bool")
+				return Val{S: app(okfn, e.specKey(arg(1), env)), T: specBool}, true
+			}
+			return e.evalErr("jsonok: unknown type " + l.Val), true
+		}
 	case "jsonlen":
 		// jsonlen("pkg.Type.Field.Sub", data): length of that slice field in the value json.Unmarshal decodes from data
 		if l, ok := y.Args[0].(*ELit); ok {
